@@ -521,6 +521,20 @@ fn canon_hashed(name: &str, v: Val) -> Val {
     }
 }
 
+/// The same key for `CqlTimeuuid`'s `Ord` / `Eq` / `Hash`, other bytes: another version nibble.
+fn flip_version(v: &Val, rng: &mut Rng) -> Val {
+    match v {
+        Val::Timeuuid(b) => {
+            let mut c = *b;
+            c[6] ^= (rng.range(1, 15) as u8) << 4;
+            Val::Timeuuid(c)
+        }
+        Val::List(vs) => Val::List(vs.iter().map(|x| flip_version(x, rng)).collect()),
+        Val::Tuple(vs) => Val::Tuple(vs.iter().map(|x| flip_version(x, rng)).collect()),
+        other => other.clone(),
+    }
+}
+
 fn has_vector(t: &Ty) -> bool {
     match t {
         Ty::Vector(..) => true,
@@ -631,12 +645,15 @@ carriers!(
         "bmap_uuid_i32" => BTreeMap<uuid::Uuid, i32>, "bmap_i64_string" => BTreeMap<i64, String>,
         "bmap_blob_opt_i64" => BTreeMap<Vec<u8>, Option<i64>>, "bmap_timeuuid_i32" => BTreeMap<CqlTimeuuid, i32>,
         "bmap_inet_bool" => BTreeMap<IpAddr, bool>,
+        "bset_opt_timeuuid" => BTreeSet<Option<CqlTimeuuid>>, "bset_vec_timeuuid" => BTreeSet<Vec<CqlTimeuuid>>,
+        "bset_tup2_timeuuid_i32" => BTreeSet<(CqlTimeuuid, i32)>,
     ],
     hashed: [
         "hset_i32" => HashSet<i32>, "hset_string" => HashSet<String>, "hmap_string_i64" => HashMap<String, i64>,
         "hmap_i32_opt_string" => HashMap<i32, Option<String>>,
         "hset_bool" => HashSet<bool>, "hset_i64" => HashSet<i64>, "hset_uuid" => HashSet<uuid::Uuid>,
         "hset_timeuuid" => HashSet<CqlTimeuuid>, "hset_inet" => HashSet<IpAddr>, "hmap_blob_i32" => HashMap<Vec<u8>, i32>,
+        "hmap_timeuuid_i32" => HashMap<CqlTimeuuid, i32>, "hset_opt_timeuuid" => HashSet<Option<CqlTimeuuid>>,
     ]
 );
 
@@ -689,7 +706,8 @@ fn content_of(v: &Val) -> Option<(i32, Vec<u8>)> {
     }
 }
 
-const SER_ONLY: &[&str] = &["strref", "bytesref", "cowstr", "varintborrowed", "decimalborrowed", "munset_i32", "vec_munset_i32", "tup2_munset_string_opt_i64", "bmap_i32_munset_string", "slice_i32", "slice_opt_string", "slice_vec_i32", "bytesarr4", "bytesarr16", "dynser_i32", "dynser_vec_string"];
+/// carriers without any `DeserializeValue` impl (`MaybeUnset`) or driven for serialization only (slices, arrays, `dyn`)
+const SER_ONLY: &[&str] = &["munset_i32", "vec_munset_i32", "tup2_munset_string_opt_i64", "bmap_i32_munset_string", "slice_i32", "slice_opt_string", "slice_vec_i32", "bytesarr4", "bytesarr16", "dynser_i32", "dynser_vec_string"];
 
 fn run_ser_only(name: &str, ty: &Ty, val: &Val, ctx: &mut Ctx) -> Option<String> {
     Some(match name {
@@ -790,6 +808,140 @@ fn gen_ser_only(name: &str, rng: &mut Rng) -> (Ty, Val) {
     }
 }
 
+/// The lazy iterators as user-facing `DeserializeValue` impls (deserialize/value.rs:962, 1216, 1430, 1793): their
+/// own `type_check`, what they yield, and their `size_hint` / `ExactSizeIterator` claim (before every `next()` it
+/// must be exactly the number of items still to come).
+fn drain<I: Iterator>(mut it: I, ctx: &mut Ctx, what: &str, stop: impl Fn(&I::Item) -> bool) -> Vec<I::Item> {
+    let (lo, hi) = it.size_hint();
+    if hi != Some(lo) {
+        ctx.fail(format!("{}: size_hint {:?} is not exact", what, (lo, hi)));
+    }
+    let mut out = Vec::new();
+    let mut left = lo;
+    loop {
+        let (l, h) = it.size_hint();
+        if l != left || h != Some(left) {
+            ctx.fail(format!("{}: size_hint ({}, {:?}) with {} item(s) still to come", what, l, h, left));
+        }
+        match it.next() {
+            Some(x) => {
+                if left == 0 {
+                    ctx.fail(format!("{}: yielded more items than size_hint announced ({})", what, lo));
+                    break;
+                }
+                left -= 1;
+                // like `collect::<Result<_, _>>()`: the first error ends the walk (a corrupt count may announce 2^31 items)
+                let done = stop(&x);
+                out.push(x);
+                if done {
+                    break;
+                }
+            }
+            None => {
+                if left != 0 {
+                    ctx.fail(format!("{}: ended with {} announced item(s) missing", what, left));
+                }
+                break;
+            }
+        }
+    }
+    out
+}
+
+fn run_tdeciter_elem<E>(ty: &Ty, body: Option<Vec<u8>>, ctx: &mut Ctx) -> String
+where
+    E: Carrier + ToVal + for<'f, 'm> DeserializeValue<'f, 'm>,
+{
+    use scylla_cql_core::deserialize::value::{ListlikeIterator, MapIterator, UdtIterator, VectorIterator};
+    let ct = to_column_type(ty);
+    let bytes = body.as_deref().map(Bytes::copy_from_slice);
+    let slice = bytes.as_ref().map(FrameSlice::new);
+    fn items<T: ToVal>(rs: Vec<Result<T, DeserializationError>>) -> Result<Vec<Val>, String> {
+        let mut out = Vec::new();
+        for r in rs {
+            match r {
+                Ok(x) => out.push(x.to_val()),
+                Err(e) => return Err(format!("err {}", de_kind(&e))),
+            }
+        }
+        Ok(out)
+    }
+    match ty {
+        Ty::List(_) | Ty::Set(_) => {
+            if ListlikeIterator::<E>::type_check(&ct).is_err() {
+                return "no-typecheck".to_owned();
+            }
+            match ListlikeIterator::<E>::deserialize(&ct, slice) {
+                Err(e) => format!("err {}", de_kind(&e)),
+                Ok(it) => match items(drain(it, ctx, "ListlikeIterator", |r| r.is_err())) {
+                    Ok(vs) => val_str(&Val::List(vs)),
+                    Err(e) => e,
+                },
+            }
+        }
+        Ty::Vector(..) => {
+            if VectorIterator::<E>::type_check(&ct).is_err() {
+                return "no-typecheck".to_owned();
+            }
+            match VectorIterator::<E>::deserialize(&ct, slice) {
+                Err(e) => format!("err {}", de_kind(&e)),
+                Ok(it) => match items(drain(it, ctx, "VectorIterator", |r| r.is_err())) {
+                    Ok(vs) => val_str(&Val::List(vs)),
+                    Err(e) => e,
+                },
+            }
+        }
+        Ty::Map(..) => {
+            if MapIterator::<E, E>::type_check(&ct).is_err() {
+                return "no-typecheck".to_owned();
+            }
+            match MapIterator::<E, E>::deserialize(&ct, slice) {
+                Err(e) => format!("err {}", de_kind(&e)),
+                Ok(it) => {
+                    let mut kvs = Vec::new();
+                    for r in drain(it, ctx, "MapIterator", |r| r.is_err()) {
+                        match r {
+                            Ok((k, v)) => kvs.push((k.to_val(), v.to_val())),
+                            Err(e) => return format!("err {}", de_kind(&e)),
+                        }
+                    }
+                    val_str(&Val::Map(kvs))
+                }
+            }
+        }
+        Ty::Udt(..) => {
+            if UdtIterator::type_check(&ct).is_err() {
+                return "no-typecheck".to_owned();
+            }
+            match UdtIterator::deserialize(&ct, slice) {
+                Err(e) => format!("err {}", de_kind(&e)),
+                Ok(it) => {
+                    let mut out = vec!["udtiter".to_owned()];
+                    for (_, r) in drain(it, ctx, "UdtIterator", |r| r.1.is_err()) {
+                        match r {
+                            Ok(None) => out.push("missing".to_owned()),
+                            Ok(Some(None)) => out.push("null".to_owned()),
+                            Ok(Some(Some(s))) => out.push(hex(s.as_slice())),
+                            Err(e) => return format!("err {}", de_kind(&e)),
+                        }
+                    }
+                    out.join(" ")
+                }
+            }
+        }
+        _ => "no-typecheck".to_owned(),
+    }
+}
+
+pub fn run_tdeciter(elem: &str, ty: &Ty, body: Option<Vec<u8>>, ctx: &mut Ctx) -> String {
+    match elem {
+        "i32" => run_tdeciter_elem::<i32>(ty, body, ctx),
+        "string" => run_tdeciter_elem::<String>(ty, body, ctx),
+        "opt_i32" => run_tdeciter_elem::<Option<i32>>(ty, body, ctx),
+        _ => "bad-case".to_owned(),
+    }
+}
+
 pub fn run_tdec(name: &str, ty: &Ty, body: Option<Vec<u8>>, ctx: &mut Ctx) -> String {
     let out = match borrowed_decode(name, &to_column_type(ty), body.as_deref()) {
         Some(r) => show_typed(&r),
@@ -824,7 +976,7 @@ pub fn run_carrier(name: &str, ty: &Ty, val: &Val, ctx: &mut Ctx) -> String {
 fn kind_of(name: &str) -> &'static str {
     if HASHED.contains(&name) {
         "carrierset"
-    } else if SER_ONLY.contains(&name) && !BORROWED.contains(&name) {
+    } else if SER_ONLY.contains(&name) {
         "carrierser"
     } else {
         "carrier"
@@ -833,7 +985,7 @@ fn kind_of(name: &str) -> &'static str {
 
 pub fn generate(rng: &mut Rng, tier: Tier, emit: &mut dyn FnMut(String)) {
     let per = if tier == Tier::Quick { 250 } else { 3000 };
-    let names: Vec<&str> = FULL.iter().chain(HASHED).chain(SER_ONLY).copied().collect();
+    let names: Vec<&str> = FULL.iter().chain(HASHED).chain(SER_ONLY).chain(BORROWED).copied().collect();
     for name in &names {
         let mut done = 0;
         let mut tries = 0;
@@ -877,6 +1029,8 @@ pub fn generate(rng: &mut Rng, tier: Tier, emit: &mut dyn FnMut(String)) {
         let v = match v {
             Val::Set(mut vs) if rng.bool() && !vs.is_empty() => {
                 let d = vs[rng.below(vs.len() as u64) as usize].clone();
+                // an `Ord`-equal key that is not identical, where the key type has one (timeuuid)
+                let d = if rng.bool() { flip_version(&d, rng) } else { d };
                 vs.push(d);
                 if rng.bool() {
                     let d2 = vs[0].clone();
@@ -888,6 +1042,7 @@ pub fn generate(rng: &mut Rng, tier: Tier, emit: &mut dyn FnMut(String)) {
             Val::Map(mut kvs) if rng.bool() && !kvs.is_empty() => {
                 let (k, _) = kvs[rng.below(kvs.len() as u64) as usize].clone();
                 let (_, v2) = kvs[rng.below(kvs.len() as u64) as usize].clone();
+                let k = if rng.bool() { flip_version(&k, rng) } else { k };
                 kvs.push((k, v2));
                 rng.shuffle(&mut kvs);
                 Val::Map(kvs)
@@ -918,6 +1073,53 @@ pub fn generate(rng: &mut Rng, tier: Tier, emit: &mut dyn FnMut(String)) {
         }
         let t = if rng.chance(1, 8) { gen_ty(rng, 2) } else { t };
         emit(format!("tdec {} {} {}", name, ty_str(&t), if rng.chance(1, 30) { "null".to_owned() } else { hex(&b) }));
+    }
+    // the lazy iterators used directly
+    for _ in 0..per * 6 {
+        let elem = *rng.pick(&["i32", "string", "opt_i32"]);
+        let et = if elem == "string" { Ty::Native(NativeType::Text) } else { Ty::Native(NativeType::Int) };
+        let t = match rng.below(8) {
+            0 | 1 => Ty::List(Box::new(et.clone())),
+            2 => Ty::Set(Box::new(et.clone())),
+            3 | 4 => Ty::Vector(Box::new(et.clone()), rng.range(0, 4) as u16),
+            5 | 6 => Ty::Map(Box::new(et.clone()), Box::new(et.clone())),
+            _ => Ty::Udt("ks".into(), "t".into(), (0..rng.range(0, 3)).map(|i| (format!("f{}", i), if rng.bool() { et.clone() } else { gen_ty(rng, 1) })).collect()),
+        };
+        let t = if rng.chance(1, 10) { gen_ty(rng, 2) } else { t };
+        let v = super::gen_cases::gen_val(rng, &t, Pos::Elem, 2);
+        let v = match (elem, v) {
+            // `Option` elements: some nulls
+            ("opt_i32", Val::List(mut vs)) if !vs.is_empty() && rng.bool() => {
+                vs[0] = Val::Null;
+                Val::List(vs)
+            }
+            (_, v) => v,
+        };
+        let mut b = spec_body(&t, &v).unwrap_or_default();
+        match rng.below(6) {
+            0 | 1 => {}
+            2 => {
+                let cut = rng.below(b.len() as u64 + 1) as usize;
+                b.truncate(cut)
+            }
+            3 => {
+                let l = rng.range(1, 5) as usize;
+                b.extend(rng.bytes(l))
+            }
+            4 => {
+                if !b.is_empty() {
+                    let i = rng.below(b.len() as u64) as usize;
+                    b[i] = *rng.pick(&[0x00u8, 0xff, 0x80, 0x7f, 0x01, 0xfe]);
+                }
+            }
+            _ => {
+                if b.len() >= 4 {
+                    // a larger element count than the body holds
+                    b[3] = b[3].wrapping_add(rng.range(1, 3) as u8);
+                }
+            }
+        }
+        emit(format!("tdeciter {} {} {}", elem, ty_str(&t), if rng.chance(1, 25) { "null".to_owned() } else { hex(&b) }));
     }
     // the two places where a typed impl answers differently from the dynamic serializer of its embedding:
     // `MaybeEmpty` checks emptiability before the inner value; the set carriers reject vector types
